@@ -21,9 +21,19 @@ import (
 	"verif/harness/vk"
 )
 
+// hangs counts calls that did not return within 60 s. Their goroutines keep running (and burning
+// CPU); after three of them the wire / stream / open-time generators stop producing further cases,
+// so that the findings are reported instead of the whole run timing out.
+var hangs int
+
+func tooManyHangs() bool { return hangs >= 3 }
+
 // measured runs f in its own goroutine under recover(): panicked?, bytes allocated by the process
 // while it ran (runtime.MemStats.TotalAlloc), returned within 60 s?
 func measured(f func()) (panicked bool, alloc uint64, returned bool) {
+	if tooManyHangs() {
+		return false, 0, false
+	}
 	type outc struct {
 		p bool
 		a uint64
@@ -50,6 +60,7 @@ func measured(f func()) (panicked bool, alloc uint64, returned bool) {
 	case o := <-done:
 		return o.p, o.a, true
 	case <-t.C:
+		hangs++
 		return false, 0, false
 	}
 }
@@ -131,6 +142,9 @@ func pgMsgTerm(v interface{}) string {
 const pgBindFinding = "pgsql.ParseBindMsg: parameter length field beyond the end of the message is not rejected"
 
 func casePgMsg(r *vk.Run, t byte, payload []byte, bucket string) {
+	if tooManyHangs() {
+		return
+	}
 	in := vk.Exact(payload)
 	var v interface{}
 	var err error
@@ -198,6 +212,9 @@ func (c *chunkConn) SetReadDeadline(t time.Time) error  { return nil }
 func (c *chunkConn) SetWriteDeadline(t time.Time) error { return nil }
 
 func casePgFrame(r *vk.Run, conn []byte, bucket string) {
+	if tooManyHangs() {
+		return
+	}
 	in := vk.Exact(conn)
 	cc := &chunkConn{rd: bytes.NewReader(in), rng: r.Rng}
 	var t byte
